@@ -67,7 +67,7 @@ def build(env, reps):
                         for pat in ("00", "ff", "80"):
                             s.call("from_bytes", kind=kind, bytes="@z:%s:%d" % (pat, size), src="arbitrary")
                         if kem == 0x0020 and kind != "tag":
-                            for e in curves.X25519_SMALL_ORDER:
+                            for e in curves.X25519_SMALL_ORDER + [(9).to_bytes(32, "little"), (9).to_bytes(31, "little") + b"\x80"]:
                                 s.call("from_bytes", kind=kind, bytes=e, src="arbitrary")
                             # every non-canonical u-coordinate p .. 2^255-1, with and without bit 255
                             P = 2**255 - 19
